@@ -309,16 +309,25 @@ def secrets_work(mi):
             tries.append(('non-recipient subkey object ' + kn, lambda m, k=list(K[kn]['key'].subkeys.values())[0]: k.decrypt(m)))
     for kn in names:
         tries.append(('public half of recipient ' + kn, lambda m, k=K[kn]['pub']: k.decrypt(m)))
-    for label, op in tries:
-        try:
-            dec = op(msg)
+    # ... against the freshly parsed object, and again against an object that was already opened successfully (an earlier success on
+    # the same object must not open the door for a wrong secret)
+    opened = pgpy.PGPMessage.from_blob(M['raw'])
+    try:
+        openers(M)[0][1](opened)
+        targets = [('', msg), (' (after a successful decryption of the same object)', opened)]
+    except Exception:
+        targets = [('', msg)]
+    for suffix, target in targets:
+        for label, op in tries:
             try:
-                got = msg_facts(dec)
-            except Exception:
-                got = None
-            res.append((mi, label, 'secret', 'ACCEPTED', 'returned %s' % ('the plaintext' if got == M['want'] else repr(got)[:100]), None))
-        except Exception as ex:
-            res.append((mi, label, 'secret', 'raise', type(ex).__name__, None))
+                dec = op(target)
+                try:
+                    got = msg_facts(dec)
+                except Exception:
+                    got = None
+                res.append((mi, label + suffix, 'secret', 'ACCEPTED', 'returned %s' % ('the plaintext' if got == M['want'] else repr(got)[:100]), None))
+            except Exception as ex:
+                res.append((mi, label + suffix, 'secret', 'raise', type(ex).__name__, None))
     # and the pristine message still opens for every recipient (controls)
     for opener, outcome, detail in attempt(M, M['raw'], openers(M)):
         res.append((mi, 'control: untouched message', opener, outcome if outcome != 'same' else 'control-ok', detail, None))
